@@ -204,7 +204,7 @@ ADDED = {
  "C08": "Added in round 2: LAY-10, NAME-1, batched REC-1, LAY-4 for every builder (shared with C04), SENT-1 (offset sentinel -1 and found-tests that accept offset 0), LINE-1 (every readLine path strips CR), BYTES-1 (payload bytes reach the decoder untouched), TOKSEP-1 (ASCII rows split on runs of white space), UNW-1. Added in the last round: CLAIM-2 summarises same-package membership helpers. Added in round 6: STATE-1 (decoding one file is a function of its bytes only: no formats/ply function reachable from the reader entry points writes storage of a package-level variable that the decoder also observes - buffers filled by io.ReadFull and read back, memo maps, reused builders; package tables that are only read hold).",
  "C09": "Added in round 2: DEGEN-1 on the stitch pass, FIELD-TREE/IDX/ALL/CAP (member tables are subscripted by the ids the spatial query returns, every hit is folded, no capture of a per-loop table), FIELD-OUT (finite non-inside default outside all members; link to SYM-ALG), RANGE-1 and SYM-STRIDE follow pure in-package helpers. Added in the last rounds: DOM-1 (declared field domains: sizes non-negative by construction, point boxes expanded by at least the radius), COMB-1 (the fold over the members containing the point visits every member and folds with min), SDF-REF (marching calls only sdf functions C19 decides); per-corner arrays followed one level into a single-site helper. Added in round 6: CELL-1 (every cell of every block reaches the case-table walk: a skip decision - return, continue, break, a skipped call of the block function in a caller - may depend on geometry, block-map lookups, the missing-neighbour flag and the cell's own eight corner samples only, never on other stored samples of the block: the last layer of a block takes its far corners from neighbouring blocks).",
  "C10": "Added in round 2: CONC-7 (Add/Done pairing: no path from wg.Add to the loop continuation avoids the go statement), SEQ-4 (the parallel variant accumulates into canvas cells exactly as the sequential sibling), SEQ-2/3 inline straight-line helpers. Added in the last round: SYM-PART total-non-negative (the partitioned total is >= 0 on every path; found and fixed: PrimitiveCount -1 on an empty line mesh, /repo a5970ab).",
- "C11": "Added in round 2: NODE-10 (every non-error return of a mutator lies behind a version bump), NODE-11 (decode into a fresh target, commit after success), REFL-2 (reflective enumeration stores a distinct allocation per key). Added in the last round: unexported identifiers are resolved by role from exported anchors.",
+ "C11": "Added in round 2: NODE-10 (every non-error return of a mutator lies behind a version bump), NODE-11 (decode into a fresh target, commit after success), REFL-2 (reflective enumeration stores a distinct allocation per key). Added in the last round: unexported identifiers are resolved by role from exported anchors. Added in round 6: NODE-12 (every test Outdated() makes on a dependency is relative to the last execution: its State() is compared with the state remembered for that dependency at the same position, recorded from State() when the node executes - not with the constant Processed, which a dependency the processing never reads can never satisfy; found and fixed: a node with an unread input re-executed on every read, /repo bd7daf3). NODE-4 accepts the remembered-state form; the remembered versions are resolved as the slice of plain int.",
  "C12": "Added in round 2: PERSIST-6/7 (edit operations), PERSIST-8 (array-input order: enumeration in index order, numeric or index-free sort key, loader appends), PERSIST-9 (payload types self-delimiting — two known findings in the jbtf dependency), PERSIST-10 (ids unique), PERSIST-11 (no stale cache of the wiring), PERSIST-12 (decode applies what was saved whatever its value), PERSIST-13 (metadata round trip is the identity), PERSIST-14 (ToJSON is computed from the live fields, or every setter invalidates the memo), SAVE-1/2/3 (file replaced with the schema bytes, Save always writes, fresh encoder per save). Added in the last round: unexported identifiers are resolved by role from exported anchors.",
  "C13": "Added in round 2: FRESH-1 on both sides (ApplyMessage does not alias the message, ToMessage returns fresh storage), CONC-5 (unlock deferred before any call that can run node code), CONC-6 (one snapshot per response), CONC-8 (a response is built from this request's own entry-point call), CONC-9 (no go statement in the evaluation call tree of package nodes), VIS-1 (every successful ApplyMessage stores into what Value() reads), VIS-2 (every success path of the POST handler has called UpdateParameter with this request's body), CONC-10 (a node is marked up to date only after Process returned: no such store before the call or in a deferred function), CONC-11 (per-request output state: no response written through a long-lived writer).",
  "C14": "Added in round 2: PRE-3 (the completeness check compares the record counter), CNT-1 (a declared count is never clamped to the data available), REC-WHOLE (count-less record streams decode only windows proven to lie within the bytes read). Added in the last rounds: TOK-2 (a missing token is an error, never a default), TOK-3 (arrays of a counted line-record reader are stored on every accepted line or on none; found and fixed: pts optional columns, /repo b9a5c65). Added in round 6: TOK-4 (the token list a record's values are parsed from is produced from this scanner line only - a strings.Fields / Split result, a slice allocated in the same loop iteration, an append onto an emptied base or a re-slice with a computed bound; a token container allocated outside the line loop that is length-tested, read or re-sliced to its full length inside the loop is reported).",
